@@ -189,7 +189,7 @@ func c14(r *rt.Run) {
 }
 
 const c14Rule = "facts: every set of <= 2 intervals (28 finite + 4 half-bounded on a 0..6 s timeline; quick: half of the pairs) for a(1) plus a(2)@[3,3], coalesced; programs: 4 operators x bounds {now,0s..3s}x{0s..3s} (ordered and swapped) at every evaluation time 0..6 s, " +
-	"an operator combined with a variable annotation on the same literal (4 operators x 8 windows, into head arguments and into a head annotation), variable annotations, head annotations (copy, now, open on either side, eternal, eternal then an operator over the derived predicate, fixed), two-rule chains in both clause orders; interval relations: every ordered pair of the 15 intervals over 0..4 x 9 relations; non-trivial = cases whose expected result is non-empty"
+	"an operator combined with a variable annotation on the same literal (4 operators x 8 windows, into head arguments and into a head annotation), variable annotations, head annotations (copy, also with a let-transform on the rule, now, open on either side, eternal, eternal then an operator over the derived predicate, fixed), two-rule chains in both clause orders; interval relations: every ordered pair of the 15 intervals over 0..4 x 9 relations; non-trivial = cases whose expected result is non-empty"
 
 func c14Pass(r *rt.Run) {
 	factSets := c14FactSets(r.Thorough())
@@ -232,6 +232,9 @@ func c14Pass(r *rt.Run) {
 		c14Prog{src: c14Decls + "h(X)@[S,E] :- a(X)@[S,E].\n", kind: "head-copy"},
 		c14Prog{src: c14Decls + "h(X)@[now] :- a(X)@[S,E].\n", kind: "head-now"},
 		c14Prog{src: c14Decls + "h(X)@[S,_] :- a(X)@[S,E].\n", kind: "head-open"},
+		c14Prog{src: c14Decls + "h(D)@[S,E] :- a(X)@[S,E] |> let D = fn:plus(X, 0).\n", kind: "head-copy"},
+		c14Prog{src: c14Decls + "h(D)@[S,_] :- a(X)@[S,E] |> let D = fn:mult(X, 1).\n", kind: "head-open"},
+		c14Prog{src: c14Decls + "h(D)@[S,E] :- a(X)@[S,E] |> let D = fn:plus(X, 0).\ng(X)@[S,E] :- h(X)@[S,E].\n", kind: "chain"},
 		c14Prog{src: c14Decls + "h(X)@[_,E] :- a(X)@[S,E].\n", kind: "head-open-left"},
 		c14Prog{src: c14Decls + "Decl h(X) temporal bound [/number].\nh(X)@[_,_] :- a(X)@[S,E].\n", kind: "head-eternal"},
 		c14Prog{src: c14Decls + "Decl h(X) temporal bound [/number].\nh(X)@[_,_] :- a(X)@[S,E].\ng(X) :- <-[0s, " + c14Dur(1) + "] h(X).\n", kind: "head-eternal-then-operator"},
